@@ -72,11 +72,23 @@ KERNELS = [
          rules=[(r"(?<![\w>.])(subiteration_num|start_subiteration_num|num_subiterations)\b", r"self->\1", (4, 6)), (r"this->terminate_iterations", "self->terminate_iterations", 1),
                 (r"== false", "== 0", 1), (r"this->update_estimate\(\*target_data_sptr\);", "K_call_update_estimate(self);", 1),
                 (r"this->end_of_iteration_processing\(\*target_data_sptr\);", "K_call_end_of_iteration_processing(self);", 1)]),
+    dict(name="K_randomly_permute_subset_order", file="src/recon_buildblock/IterativeReconstruction.cxx",
+         cxx_name="IterativeReconstruction<TargetT>::randomly_permute_subset_order",
+         func=r"IterativeReconstruction<TargetT>::randomly_permute_subset_order\(\) const",
+         c_header="void K_randomly_permute_subset_order(const struct IR* self, struct IVEC* out)", loops=3,
+         rules=[  # VectorWithOffset<int>(n) has the index range [0,n) (C11); the returned vector is written in place (out->e), its length is n
+                (r"VectorWithOffset<int> temp_array\(this->num_subsets\), final_array\(this->num_subsets\);",
+                 "int temp_array[RP_N]; int* const final_array = out->e; out->n = self->num_subsets;", 1),
+                # the log message does not change the result: dropped (exact count)
+                (r"\{\s*std::stringstream s;.*?info\(s\.str\(\), 2\);\s*\}", "", 1),
+                (r"\brand\(\)", "K_rand()", 1),
+                (r"return final_array;", "return;", 1),
+                (r"\bthis->", "self->", (4, 12))]),
     dict(name="K_get_subset_num", file="src/recon_buildblock/IterativeReconstruction.cxx",
          cxx_name="IterativeReconstruction<TargetT>::get_subset_num",
          func=r"IterativeReconstruction<TargetT>::get_subset_num\(\)", c_header="int K_get_subset_num(struct IR* self)", loops=0,
          rules=[(r"this->_current_subset_array = this->randomly_permute_subset_order\(\);",
-                 "K_randomly_permute_subset_order(self, &self->_current_subset_array);", 1),
+                 "{ struct IVEC K_tmp; K_randomly_permute_subset_order(self, &K_tmp); self->_current_subset_array = K_tmp; }", 1),  # returns by value, then assigned
                 (r"this->_current_subset_array\[([^\]]+)\]", r"K_ivec_at(&self->_current_subset_array, \1)", 1),
                 (r"this->_current_subset_array\.get_length\(\)", "self->_current_subset_array.n", (0, 2)),
                 (r"\bthis->", "self->", (5, 12))]),
@@ -89,12 +101,34 @@ CHK = ["--signed-overflow-check", "--div-by-zero-check", "--bounds-check", "--po
 STATIC_FACTS = []
 
 
+RPSO_MAX = 96  # largest number of subsets for which the permutation kernel's invariants are generated
+
+
+def _rpso_headers(gen_dir):
+    """Loop invariants of K_randomly_permute_subset_order quantify over the (constant, per job) number of subsets N; they are written out
+    as finite conjunctions per N (CBMC's SAT back end has no reliable forall). T = temp_array, V(k) = T without the slot j being shifted."""
+    for N in range(1, RPSO_MAX + 1):
+        conj = lambda terms: " && ".join(terms) if terms else "1"
+        T = lambda k: "temp_array[%d]" % k
+        V = lambda k: "(%d < (j) ? temp_array[%d] : temp_array[%d])" % (k, k, k + 1)
+        L = ["/* generated by props/c06.py for N = %d */" % N]
+        L.append("#define RP_INIT(i) (%s)" % conj(["(!(%d < (i)) || %s == %d)" % (k, T(k), k) for k in range(N)]))
+        L.append("#define RP_RANGE(m) (%s)" % conj(["(!(%d < (m)) || (0 <= %s && %s < %d))" % (k, T(k), T(k), N) for k in range(N)]))
+        L.append("#define RP_VRANGE(m, j) (%s)" % conj(["(!(%d < (m)) || (0 <= %s && %s < %d))" % (k, V(k), V(k), N) for k in range(N - 1)]))
+        summ = lambda terms: " + ".join(terms) if terms else "0"
+        L.append("#define RP_COUNT_T(m, g) (%s)" % summ(["((%d < (m) && %s == (g)) ? 1 : 0)" % (k, T(k)) for k in range(N)]))
+        L.append("#define RP_COUNT_V(m, j, g) (%s)" % summ(["((%d < (m) && %s == (g)) ? 1 : 0)" % (k, V(k)) for k in range(N - 1)]))
+        L.append("#define RP_COUNT_F(i, g) (%s)" % summ(["((%d < (i) && out->e[%d] == (g)) ? 1 : 0)" % (k, k) for k in range(N)]))
+        open(os.path.join(gen_dir, "rpso_inv_%d.h" % N), "w").write("\n".join(L) + "\n")
+
+
 def extra_gen(repo, gen_dir, metas):
     """Supporting static fact (syntactic scan, not a proof obligation): the two update_estimate bodies take the subset from
     get_subset_num() once and hand exactly that value to every call that has a subset argument."""
     import re
     from vlib import extract
     del STATIC_FACTS[:]
+    _rpso_headers(gen_dir)
     for rel, cls in (("src/iterative/OSMAPOSL/OSMAPOSLReconstruction.cxx", "OSMAPOSLReconstruction"), ("src/iterative/OSSPS/OSSPSReconstruction.cxx", "OSSPSReconstruction")):
         src = extract.strip_comments(open(os.path.join(repo, rel)).read())
         start, bo, bc = extract.find_function(src, r"%s<TargetT>::update_estimate\(TargetT& current_image_estimate\)" % cls)
@@ -132,6 +166,11 @@ def jobs(tier, gen_dir):
         enforce("K_balanced_count", repl=["K_is_basic_ghost", "K_num_related_ghost"], lc=True, suffix="/S=%d" % S, defines={"C06_S": S, "C06_MAXVIEWS": 1024},
                 params={"num_subsets": S})
         enforce("K_balanced_verdict", lc=True, suffix="/S=%d" % S, defines={"C06_S": S}, params={"num_subsets": S})
+    for S in ([1, 2, 3, 4, 5, 6, 8, 12, 16, 24] if tier == "quick" else list(range(1, 49)) + [64]):
+        enforce("K_randomly_permute_subset_order", lc=True, suffix="/S=%d" % S, defines={"C06_S": S}, params={"num_subsets": S}, backend="kissat", timeout=900 if tier == "quick" else 2400)
+    out.append(Job("c06/canary/K_randomly_permute_subset_order", HARNESS, "h_K_randomly_permute_subset_order", enforce="K_randomly_permute_subset_order",
+                   kernels=["K_randomly_permute_subset_order"], kind="canary", defines={"CANARY_K_randomly_permute_subset_order": None, "C06_S": 4}, loop_contracts=True,
+                   expect_fail=r"K_randomly_permute_subset_order\.postcondition", no_base_flags=True, timeout=300, object_bits=10))
     for S in subsets:
         enforce("K_get_subset_num", repl=["K_randomly_permute_subset_order"], suffix="/S=%d" % S, defines={"C06_S": S}, params={"num_subsets": S})
         out.append(Job("c06/lemma_schedule/S=%d" % S, HARNESS, "h_lemma_schedule", kind="lemma", kernels=["K_get_subset_num"], flags=CHK,
@@ -167,7 +206,7 @@ TRUSTED = [
     "std::vector<ViewSegmentNumbers> modelled as a bounded array (capacity 8 asserted) / as ghost counters for the subset output",
     "SYM_VALID is what the DataSymmetriesForBins_PET_CartesianGrid constructor establishes: proved here (kernels K_sym_ctor_init / K_sym_ctor_flags, lemma_sym_valid; float and dynamic_cast conditions nondeterministic) for cylindrical scanners, assumed for BlocksOnCylindrical",
     "view range of the data is [0,num_views) when view symmetries are enabled; segment range symmetric when swap_segment is enabled",
-    "randomly_permute_subset_order delivers a permutation (assumed contract in the get_subset_num job)",
+    "rand() returns a value in [0, RAND_MAX] (C standard; RAND_MAX = 2^31-1 as in glibc)",
     "callers loop over all TOF bins around the view-segment list (not checked here)",
 ]
 ASSUMPTIONS = ["domain: num_views <= 4096, |segment| <= 100000, num_subsets <= 4096"]
@@ -212,6 +251,9 @@ def replay(job, o, workroot, repo):
         for start in (2, S, S + 1, 1):
             for r in (1, 0):
                 cands.append(["subset_num", S, start, 0, r, 3 * S])
+    elif kern == "K_randomly_permute_subset_order":
+        for SS in sorted({S, 2, 3, 5, 8, 13}):
+            cands.append(["subset_num", SS, 1, 0, 1, 6 * SS])
     elif kern in ("K_sym_ctor_init", "K_sym_ctor_flags"):
         for nv in (6, 10, 14, 8, 12, 5, 7, 30):
             for flags in ((1, 1, 1), (0, 1, 1), (1, 0, 0)):
